@@ -930,6 +930,11 @@ func newScanner(i io.Reader) *bufio.Scanner {
 				// We have a line terminated by single newline.
 				return i + 1, data[0:i], nil
 			}
+			// We have a carriage return at the end of the available data: we need to request more data
+			// to know whether it's followed by a newline
+			if len(data) == i+1 && !atEOF {
+				return 0, nil, nil
+			}
 			advance = i + 1
 			if len(data) > i+1 && data[i+1] == '\n' {
 				advance += 1
